@@ -77,6 +77,9 @@ class TokenTree:
         if self.private_key is None:
             msg = "Attempted to create token without a key!"
             raise RuntimeError(msg)
+        if len(content_hash) != len(self.genesis_hash):
+            msg = "The content hash must be a SHA3-256 digest!"
+            raise RuntimeError(msg)
         previous_hash = self.genesis_hash if not after else after.get_hash()
         return self._append(Token(previous_hash, content_hash=content_hash, private_key=self.private_key))
 
